@@ -54,6 +54,62 @@ class _NotJson:
     pass
 
 
+class StdoutProxy(io.TextIOBase):
+    """Installed as sys.stdout BEFORE the library (and xlrd, pypdf, ...) is imported, and never replaced: whoever
+    captured `sys.stdout` at import time (a default argument like xlrd's `logfile=sys.stdout`) still writes through
+    it.  Writes go to the current target; during a CLI run every write that does not come from a frame of
+    sharepoint2text/cli.py is remembered as FOREIGN (a third-party reader talking on the CLI's result channel)."""
+
+    def __init__(self, idle_target):
+        self._idle = idle_target
+        self.target = idle_target
+        self.owner = None
+        self.foreign = []
+        self.own_chars = 0
+
+    encoding = "utf-8"
+    errors = "strict"
+
+    def begin(self, target, cli_file):
+        self.target, self.owner, self.foreign, self.own_chars = target, os.path.realpath(cli_file), [], 0
+
+    def end(self):
+        self.target, self.owner = self._idle, None
+
+    def writable(self):
+        return True
+
+    def isatty(self):
+        return False
+
+    def write(self, s_):
+        own = False
+        if self.owner is not None and s_:
+            try:
+                f = sys._getframe(1)
+                fn = os.path.realpath(f.f_code.co_filename)
+                if fn != self.owner:
+                    if len(self.foreign) < 5:
+                        self.foreign.append(f"{os.path.basename(fn)}:{f.f_code.co_name}: {s_[:60]!r}")
+                else:
+                    own = True
+            except ValueError:
+                pass
+        r = self.target.write(s_)          # may raise (strict encoding): then nothing of s_ was written
+        if own:
+            self.own_chars += len(s_)
+        return r
+
+    def flush(self):
+        try:
+            self.target.flush()
+        except ValueError:
+            pass
+
+
+PROXY = None
+
+
 class Worker:
     def __init__(self, wdir):
         import resource
@@ -151,6 +207,8 @@ class Worker:
                 return "gen", self.by_kind[kind].func(io.BytesIO(data))
             return "gen", self.by_kind[kind].func(io.BytesIO(data), "" if pm == "empty" else nm)
         if entry == "readfile":
+            if "max_file_size" in job:                  # read_file's own guard as an outcome class of the spec
+                return "gen", self.sp.read_file(self._file(nm, data), max_file_size=int(job["max_file_size"]))
             return "gen", self.sp.read_file(self._file(nm, data))
         if entry == "member":
             return "gen", self.by_kind["archive"].func(io.BytesIO(payload), f"a.{arch}")
@@ -178,7 +236,7 @@ class Worker:
     def run(self, job):
         rec = self.rec
         op = job["op"]
-        data = self.materialise(job)
+        data = self.materialise(job) if op != "seq" else b""
         # CPU budget of this job (20 s + 2 s/MB of the ACTUAL input): the soft RLIMIT_CPU moves forward
         try:
             # (the witness of an OPEN finding only has to show that it still does not come back: shorter budget)
@@ -191,6 +249,8 @@ class Worker:
             dom = M.ole_vector_evidence(data)
             dom.update(M.pdf_cycle_evidence(data))
             return {"id": job.get("id"), "dom": dom, "ev": [], "size": len(data)}
+        if op == "seq":
+            return self.run_seq(job)
         if op == "sniff":
             return self.run_sniff(job, data)
         if op == "clisub":
@@ -239,13 +299,16 @@ class Worker:
                 rawo, rawe = io.BytesIO(), io.BytesIO()
                 bo = io.TextIOWrapper(rawo, encoding="utf-8", errors="strict", newline="", write_through=True)
                 be = io.TextIOWrapper(rawe, encoding="utf-8", errors="backslashreplace", newline="", write_through=True)
-                sys.stdout, sys.stderr = bo, be
+                PROXY.begin(bo, self.cli.__file__)
+                sys.stdout, sys.stderr = PROXY, be
                 rc, esc = 9, None
                 try:
                     rc = self.cli.main(what)
                 except BaseException as e:          # noqa
                     esc = type(e).__name__
                 finally:
+                    foreign = list(PROXY.foreign)
+                    PROXY.end()
                     sys.stdout, sys.stderr = so, se
                 ev = rec.end()
                 for w_ in (bo, be):
@@ -254,8 +317,8 @@ class Worker:
                     except Exception:
                         pass
                 o, e_ = rawo.getvalue().decode("utf-8", "replace"), rawe.getvalue().decode("utf-8", "replace")
-                ev.append(cli_out_event(o, e_, rc))
-                out.update(stdout_len=len(o), stderr=e_[-400:], rc=rc, cli_esc=esc)
+                ev.append(cli_out_event(o, e_, rc, foreign))
+                out.update(stdout_len=len(o), stderr=e_[-400:], rc=rc, cli_esc=esc, foreign_stdout=foreign)
         finally:
             sys.stdout, sys.stderr = so, se
             self.cli.serialize_extraction = real_ser
@@ -277,6 +340,82 @@ class Worker:
         if op == "dry":
             out["targets"] = self.targets(rec.line_log)
         return out
+
+    def run_seq(self, job):
+        """a HISTORY of API calls in one process, every call on a fresh thread (call k+1 starts when call k is over):
+        whatever an earlier call leaves behind -- a lock, a patched module attribute, a cache -- must not keep a later
+        one from coming back.  A call whose thread is BLOCKED (sleeping, no CPU progress) is a Timeout; a spinning one
+        hits the CPU budget of the process."""
+        import threading
+        rec = self.rec
+        rec.set_line_events(False)
+        steps_out = []
+        total = 0
+        recycle = False
+        for st in job["steps"]:
+            data = self.materialise(st)
+            total += len(data)
+            try:
+                soft = int(time.process_time() + 20.0 + 2.0 * len(data) / 1e6) + 2
+                self.resource.setrlimit(self.resource.RLIMIT_CPU, (soft, self.resource.RLIM_INFINITY))
+            except Exception:
+                pass
+            box = {}
+
+            def body(st=st, data=data, box=box):
+                try:
+                    kind, what = self.call(st, data)
+                    rec.begin()
+                    rec.loop_bound = 16 * len(data) + (1 << 21)
+                    n, esc = 0, "Done"
+                    try:
+                        for _ in what:
+                            n += 1
+                    except BaseException as e:          # noqa
+                        esc = self.classify(e)
+                        box["esc_type"] = type(e).__name__
+                    ev = rec.end()
+                    ev.append({"a": "Outcome", "esc": esc, "n": min(n, 3)})
+                    box["ev"] = ev
+                    if rec.loop_over:
+                        box["ev"] = [{"a": "LoopOverrun"}]
+                except BaseException as e:              # noqa
+                    box["machinery"] = f"{type(e).__name__}: {e}"
+            th = threading.Thread(target=body, daemon=True)
+            t0 = time.time()
+            th.start()
+            blocked = False
+            quiet = 0
+            last_cpu = None
+            while th.is_alive():
+                th.join(0.25)
+                if not th.is_alive():
+                    break
+                if time.time() - t0 < 3.0:
+                    continue
+                try:
+                    f = open(f"/proc/self/task/{th.native_id}/stat").read().rsplit(")", 1)[1].split()
+                    state, cpu = f[0], int(f[11]) + int(f[12])
+                except Exception:
+                    state, cpu = "R", None
+                if state == "S" and cpu == last_cpu:
+                    quiet += 1
+                else:
+                    quiet = 0
+                last_cpu = cpu
+                if quiet >= 12:                         # 3 s asleep without a tick of CPU: waiting for something that
+                    blocked = True                      # will never come (a lock left behind by an earlier call)
+                    break
+            if blocked:
+                steps_out.append({"ev": [{"a": "Timeout"}], "blocked": True, "size": len(data)})
+                recycle = True
+                break
+            if "machinery" in box:
+                return {"id": job.get("id"), "machinery": box["machinery"]}
+            steps_out.append({"ev": box.get("ev", []), "esc_type": box.get("esc_type"), "size": len(data)})
+        rec.active = False
+        return {"id": job.get("id"), "steps": steps_out, "ev": steps_out[-1]["ev"], "size": total, "detail": [],
+                "recycle": recycle}
 
     def sniffers(self):
         """the image-dimension sniffers of the library, by name (binding: exit 2 if the shared ones vanish)."""
@@ -350,16 +489,20 @@ class Worker:
             out["killed"] = out["ev"][0]["a"]
             out["rc"] = p.returncode
             return out
+        foreign = []
         try:
-            ev = json.loads(evf.read_text())
+            side = json.loads(evf.read_text())
+            ev, foreign = side["ev"], side.get("foreign", [])
         except Exception:
             ev = None
         so, se = p.stdout.decode("utf-8", "replace"), p.stderr.decode("utf-8", "replace")
+        if ev is not None and not foreign and len(so) != side.get("own_chars", len(so)):
+            foreign = [f"stdout carries {len(so)} characters, cli.py wrote {side.get('own_chars')}"]
         if ev is None:
             out["machinery"] = f"cli launcher produced no events (rc={p.returncode}): {se[-300:]}"
             return out
-        ev.append(cli_out_event(so, se, p.returncode))
-        out.update(ev=ev, stdout_len=len(so), stderr=se[-400:], rc=p.returncode)
+        ev.append(cli_out_event(so, se, p.returncode, foreign))
+        out.update(ev=ev, stdout_len=len(so), stderr=se[-400:], rc=p.returncode, foreign_stdout=foreign)
         return out
 
     def targets(self, log):
@@ -381,11 +524,13 @@ class Worker:
         return out
 
 
-def cli_out_event(stdout, stderr, rc):
+def cli_out_event(stdout, stderr, rc, foreign=()):
     """stdout class, number of lines the CLI wrote to stderr (logging / warnings are routed away by the harness, so
     every line is the CLI's own: a diagnostic whose message contains newlines counts as that many lines)."""
     lines = stderr.splitlines()
-    if stdout == "":
+    if foreign:
+        o = "polluted"                      # somebody other than the CLI wrote to stdout
+    elif stdout == "":
         o = "empty"
     elif rc == 0 and stdout.endswith("\n"):
         o = "result"
@@ -398,7 +543,9 @@ def serve(wdir):
     proto = os.fdopen(os.dup(1), "w", buffering=1)
     devnull = open(os.devnull, "w")
     os.dup2(devnull.fileno(), 1)
-    sys.stdout = devnull
+    global PROXY
+    PROXY = StdoutProxy(devnull)
+    sys.stdout = PROXY                      # before the library and its third-party readers are imported
     try:
         w = Worker(wdir)
     except Exception as e:
@@ -429,6 +576,11 @@ def clisub(argv_json, events_file):
     """Run cli.main in THIS fresh process with the recorder on; events -> file; real stdout/stderr/exit."""
     import logging
     import warnings
+    global PROXY
+    real = sys.stdout
+    strict = io.TextIOWrapper(real.buffer, encoding="utf-8", errors="strict", newline="", write_through=True)
+    PROXY = StdoutProxy(strict)
+    sys.stdout = PROXY                      # before the library and its third-party readers are imported
     warnings.simplefilter("ignore")
     logging.getLogger().addHandler(logging.NullHandler())
     from .repo import activate
@@ -442,12 +594,13 @@ def clisub(argv_json, events_file):
     rec.install(line_events=False)
     rec.begin()
     rc = 9
+    PROXY.begin(strict, cli.__file__)
     try:
         rc = cli.main(json.loads(argv_json))
     finally:
         ev = rec.end()
-        Path(events_file).write_text(json.dumps(ev))
-    sys.stdout.flush()
+        Path(events_file).write_text(json.dumps({"ev": ev, "foreign": PROXY.foreign, "own_chars": PROXY.own_chars}))
+        PROXY.flush()
     return rc
 
 
@@ -599,6 +752,12 @@ class Pool:
                 else:
                     res["wall"] = round(time.time() - t0, 3)
                     results[i] = res
+                    if res.get("recycle"):              # a thread of that worker is stuck for good
+                        proc.kill()
+                        try:
+                            proc.start()
+                        except Exception:
+                            return
                 with lock:
                     done[0] += 1
                     if progress and done[0] % 500 == 0:
